@@ -77,6 +77,21 @@ func AssertDefaults(c *core.Ctx, when string) {
 	}
 }
 
+// AssertRestored: after the workload every option was set back to its default through the public setters; if the
+// hooked state still differs from the fresh-process state the library cannot be restored - reported as a violation
+// (whatever the property being checked, its oracle cannot be trusted in that state).
+func AssertRestored(c *core.Ctx) {
+	now := mxj.VerifOptionSnapshot()
+	if !reflect.DeepEqual(now, processStart) {
+		c.Index = -1
+		c.Violate("options-not-restored-to-defaults", "after setting every option back to its default the package option state differs from a fresh process", core.D{"difference(fresh -> now)": diffSnap(processStart, now)})
+	}
+	if noww := x2jw.VerifOptionSnapshot(); !reflect.DeepEqual(noww, processStartW) {
+		c.Index = -1
+		c.Violate("options-not-restored-to-defaults", "x2j-wrapper option state differs from a fresh process", core.D{"difference": diffSnap(processStartW, noww)})
+	}
+}
+
 func diffSnap(a, b map[string]interface{}) string {
 	s := ""
 	keys := make([]string, 0, len(a))
